@@ -14,8 +14,11 @@
   `beValue`/`leValue`/`twosBE`/`twosLE` are the exact-arithmetic readings of `Bnum.Spec.Endian`.
   Every model function returns an `Outcome`; each theorem below exhibits an `.ok _` result, i.e. no
   slice/array index computation of the Rust code can panic, for ANY slice length.
+  The last three sections state the big-endian "shorter"/"longer" clauses directly, the value of
+  `to_be`…`from_le` for either target, and the SIGNED reading of the nightly `*_bytes` methods (bytes of
+  `S a mod 2^BITS`, two's-complement value of the bytes, signed round trips).
 -/
-import Bnum.Lemmas.Endian
+import Bnum.Lemmas.C15Extra
 set_option autoImplicit false
 namespace Bnum.C15
 open Bnum Bnum.Endian Bnum.Spec.Endian
@@ -347,5 +350,159 @@ theorem signed_delegates (e : Bool) (bw n : Nat) (a : List Nat) :
     II.fromLeBytes bw n a = UI.fromLeBytes bw n a ∧ II.fromBeBytes bw n a = UI.fromBeBytes bw n a ∧
     II.toNeBytes e bw n a = UI.toNeBytes e bw n a ∧ II.fromNeBytes e bw n a = UI.fromNeBytes e bw n a :=
   ⟨rfl, rfl, rfl, rfl, rfl, rfl⟩
+
+/-! ## big-endian forms of the "shorter" / "longer" clauses (stated directly, not via the reversed slice) -/
+
+/-- C15 "shorter slices are zero-extended" (unsigned, BE): at most `N*BYTES` bytes are always accepted and
+    denote their big-endian value -/
+theorem u_fromBeSlice_short {bw sh : Nat} (hbw : bw = 2 ^ sh) (n : Nat) {bs : List Nat} (hb : Bytes bs)
+    (hlen : bs.length ≤ n * bw) :
+    UI.fromBeSlice bw n bs = .ok (some (ofNat (8 * bw) n (beValue bs))) := by
+  rw [u_fromBeSlice_eq_fromLeSlice_reverse hbw,
+    u_fromLeSlice_short hbw n hb.reverse (by simpa using hlen), ← beValue_eq_leValue_reverse]
+example : UI.fromBeSlice 2 2 [0x12, 0x34, 0x56] = .ok (some [0x3456, 0x12]) := by decide
+
+/-- C15 "longer slices are accepted only if the excess bytes are pure zero padding" (unsigned, BE): the
+    excess bytes are the FIRST `len - N*BYTES` bytes -/
+theorem u_fromBeSlice_long {bw sh : Nat} (hbw : bw = 2 ^ sh) (n : Nat) {bs : List Nat} (hb : Bytes bs)
+    (hlen : n * bw ≤ bs.length) :
+    (∃ x, UI.fromBeSlice bw n bs = .ok (some x)) ↔ ∀ b ∈ bs.take (bs.length - n * bw), b = 0 := by
+  rw [u_fromBeSlice_eq_fromLeSlice_reverse hbw,
+    u_fromLeSlice_long hbw n hb.reverse (by simpa using hlen), reverse_drop_eq]
+  simp only [List.mem_reverse]
+example : UI.fromBeSlice 1 2 [0, 1, 2] = .ok (some [2, 1]) ∧ UI.fromBeSlice 1 2 [1, 0, 0] = .ok none ∧
+    [0, 1, 2].take ([0, 1, 2].length - 2 * 1) = [0] := by decide
+
+/-- C15 "shorter slices are sign-extended" (signed, BE; sign from the FIRST byte) -/
+theorem i_fromBeSlice_short {bw sh : Nat} (hbw : bw = 2 ^ sh) {n : Nat} (hn : 1 ≤ n) {bs : List Nat}
+    (hb : Bytes bs) (hlen : bs.length ≤ n * bw) :
+    II.fromBeSlice bw n bs = .ok (some (ofInt (8 * bw) n (twosBE bs))) := by
+  rw [i_fromBeSlice_eq_fromLeSlice_reverse hbw hn,
+    i_fromLeSlice_short hbw hn hb.reverse (by simpa using hlen), twosBE_eq_twosLE_reverse]
+example : II.fromBeSlice 1 3 [0x80, 0x01] = .ok (some [0x01, 0x80, 0xff]) := by decide
+
+/-- C15 "longer slices are accepted only if the excess bytes are pure sign padding" (signed, BE): the first
+    `len - N*BYTES` bytes must all be `0xFF` / `0x00` according to the sign of the remaining `N*BYTES` bytes
+    (i.e. of byte `len - N*BYTES`) -/
+theorem i_fromBeSlice_long {bw sh : Nat} (hbw : bw = 2 ^ sh) {n : Nat} (hn : 1 ≤ n) {bs : List Nat}
+    (hb : Bytes bs) (hlen : n * bw ≤ bs.length) :
+    (∃ x, II.fromBeSlice bw n bs = .ok (some x)) ↔
+      bs.take (bs.length - n * bw) = List.replicate (bs.length - n * bw)
+        (if twosBE (bs.drop (bs.length - n * bw)) < 0 then 255 else 0) := by
+  rw [i_fromBeSlice_eq_fromLeSlice_reverse hbw hn,
+    i_fromLeSlice_long hbw hn hb.reverse (by simpa using hlen), reverse_drop_eq, reverse_take_eq,
+    ← twosBE_eq_twosLE_reverse, List.length_reverse, List.reverse_eq_iff, List.reverse_replicate]
+example : II.fromBeSlice 1 1 [0xff, 0x80] = .ok (some [0x80]) ∧ II.fromBeSlice 1 1 [0x00, 0x80] = .ok none ∧
+    twosBE ([0xff, 0x80].drop ([0xff, 0x80].length - 1 * 1)) < 0 := by decide
+
+/-- C15: a slice of exactly `N*BYTES` bytes is decoded like the byte ARRAY of the nightly constructors,
+    for both signednesses and both byte orders (always `Some`) -/
+theorem fromSlice_eq_fromBytes {bw sh : Nat} (hbw : bw = 2 ^ sh) {n : Nat} (hn : 1 ≤ n) {bytes : List Nat}
+    (hb : Bytes bytes) (hlen : bytes.length = n * bw) :
+    UI.fromLeSlice bw n bytes = (UI.fromLeBytes bw n bytes).map some ∧
+    UI.fromBeSlice bw n bytes = (UI.fromBeBytes bw n bytes).map some ∧
+    II.fromLeSlice bw n bytes = (II.fromLeBytes bw n bytes).map some ∧
+    II.fromBeSlice bw n bytes = (II.fromBeBytes bw n bytes).map some := by
+  obtain ⟨⟨x, hx1, hx2, hxw, hxu⟩, ⟨y, hy1, hy2, hyw, hyu⟩⟩ := fromBytes_spec hbw hb hlen
+  have hxs := S_of_U_eq_leValue hxw hb hlen hxu
+  have hys : S (8 * bw) y = twosBE bytes := by
+    rw [twosBE_eq_twosLE_reverse]
+    exact S_of_U_eq_leValue hyw hb.reverse (by simpa using hlen) (by rw [hyu, beValue_eq_leValue_reverse])
+  refine ⟨?_, ?_, ?_, ?_⟩
+  · rw [u_fromLeSlice_short hbw n hb (Nat.le_of_eq hlen), hx1, ← hxu, ← eq_ofNat hxw]; rfl
+  · rw [u_fromBeSlice_short hbw n hb (Nat.le_of_eq hlen), hy1, ← hyu, ← eq_ofNat hyw]; rfl
+  · rw [i_fromLeSlice_short hbw hn hb (Nat.le_of_eq hlen), hx2, ← hxs, ← eq_ofInt hxw]; rfl
+  · rw [i_fromBeSlice_short hbw hn hb (Nat.le_of_eq hlen), hy2, ← hys, ← eq_ofInt hyw]; rfl
+example : II.fromBeSlice 2 1 [0x80, 0x01] = (II.fromBeBytes 2 1 [0x80, 0x01]).map some := by decide
+
+/-! ## `to_be` … `from_le` on pattern values, for either target -/
+
+/-- C15 "to_be/from_be/to_le/from_le reverse the byte order of the pattern exactly when the target's
+    endianness differs": on the pattern VALUE, `to_be`/`from_be` are the exact-arithmetic byte reversal
+    `swapPattern` on a little-endian target and the identity on a big-endian one; `to_le`/`from_le` the
+    other way round; the result is well-formed (both signednesses: the signed methods are the same functions) -/
+theorem toBe_toLe_value {bw n : Nat} (e : Bool) {a : List Nat} (ha : WF (8 * bw) n a) :
+    (WF (8 * bw) n (UI.toBe e bw a) ∧
+      U (8 * bw) (UI.toBe e bw a) = (if e then swapPattern (n * bw) (U (8 * bw) a) else U (8 * bw) a)) ∧
+    (WF (8 * bw) n (UI.toLe e bw a) ∧
+      U (8 * bw) (UI.toLe e bw a) = (if e then U (8 * bw) a else swapPattern (n * bw) (U (8 * bw) a))) ∧
+    UI.fromBe e bw a = UI.toBe e bw a ∧ UI.fromLe e bw a = UI.toLe e bw a ∧
+    II.toBe e bw a = UI.toBe e bw a ∧ II.toLe e bw a = UI.toLe e bw a ∧
+    II.fromBe e bw a = UI.toBe e bw a ∧ II.fromLe e bw a = UI.toLe e bw a := by
+  refine ⟨?_, ?_, rfl, rfl, rfl, rfl, rfl, rfl⟩
+  · rw [(toBe_eq e bw a).1]; cases e
+    · exact ⟨ha, rfl⟩
+    · exact swapBytes_value ha
+  · rw [(toLe_eq e bw a).1]; cases e
+    · exact swapBytes_value ha
+    · exact ⟨ha, rfl⟩
+example : U (8 * 1) (UI.toBe true 1 [1, 2, 3]) = swapPattern (3 * 1) (U (8 * 1) [1, 2, 3]) := by decide
+
+/-! ## nightly `*_bytes`: the signed reading ("producing the two's-complement bytes") -/
+
+/-- C15: for a signed integer of value `S a`, `to_le_bytes` / `to_be_bytes` / `to_ne_bytes` produce exactly the
+    `N*BYTES` bytes of the two's-complement pattern `S a mod 2^BITS`, and those bytes, read back as a
+    two's-complement number (sign from the most significant byte), denote `S a` -/
+theorem i_toBytes_twos {bw sh : Nat} (hbw : bw = 2 ^ sh) {n : Nat} (e : Bool) {a : List Nat}
+    (ha : WF (8 * bw) n a) :
+    II.toLeBytes bw n a = .ok (leBytes (n * bw) (wrapU (M (8 * bw) n) (S (8 * bw) a))) ∧
+    II.toBeBytes bw n a = .ok (beBytes (n * bw) (wrapU (M (8 * bw) n) (S (8 * bw) a))) ∧
+    II.toNeBytes e bw n a = .ok (if e then leBytes (n * bw) (wrapU (M (8 * bw) n) (S (8 * bw) a))
+                                  else beBytes (n * bw) (wrapU (M (8 * bw) n) (S (8 * bw) a))) ∧
+    twosLE (leBytes (n * bw) (wrapU (M (8 * bw) n) (S (8 * bw) a))) = S (8 * bw) a ∧
+    twosBE (beBytes (n * bw) (wrapU (M (8 * bw) n) (S (8 * bw) a))) = S (8 * bw) a := by
+  rw [U_eq_wrapU_S ha]
+  have hl := (toLeBytes_spec hbw ha).2.1
+  have hbe := (toBeBytes_spec hbw ha).2.1
+  refine ⟨hl, hbe, ?_, twosLE_leBytes ha, twosBE_beBytes ha⟩
+  rw [(neBytes_eq e bw n a).2.2.1]; cases e
+  · exact hbe
+  · exact hl
+example : II.toBeBytes 1 2 [0xfe, 0xff] = .ok [0xff, 0xfe] ∧ wrapU (M (8 * 1) 2) (S (8 * 1) [0xfe, 0xff]) = 0xfffe ∧
+    S (8 * 1) [0xfe, 0xff] = -2 := by decide
+
+/-- C15: the unsigned `to_ne_bytes` / `from_ne_bytes` are the `le` forms on a little-endian target and the `be`
+    forms on a big-endian one, as VALUES (bytes of / value of), not only as a choice of function -/
+theorem neBytes_spec {bw sh : Nat} (hbw : bw = 2 ^ sh) {n : Nat} (e : Bool) {a bytes : List Nat}
+    (ha : WF (8 * bw) n a) (hb : Bytes bytes) (hlen : bytes.length = n * bw) :
+    UI.toNeBytes e bw n a = .ok (if e then leBytes (n * bw) (U (8 * bw) a) else beBytes (n * bw) (U (8 * bw) a)) ∧
+    (∃ x, UI.fromNeBytes e bw n bytes = .ok x ∧ II.fromNeBytes e bw n bytes = .ok x ∧ WF (8 * bw) n x ∧
+      U (8 * bw) x = (if e then leValue bytes else beValue bytes)) := by
+  obtain ⟨⟨x, hx1, _, hxw, hxu⟩, ⟨y, hy1, _, hyw, hyu⟩⟩ := fromBytes_spec hbw hb hlen
+  cases e
+  · exact ⟨(toBeBytes_spec hbw ha).1, y, hy1, hy1, hyw, hyu⟩
+  · exact ⟨(toLeBytes_spec hbw ha).1, x, hx1, hx1, hxw, hxu⟩
+example : UI.toNeBytes false 2 1 [0x1234] = .ok [0x12, 0x34] ∧ UI.fromNeBytes false 2 1 [0x12, 0x34] = .ok [0x1234] := by
+  decide
+
+/-- C15: the signed `from_*_bytes` never panic and produce THE integer whose signed value is the
+    two's-complement reading of the `N*BYTES` bytes (sign from the last byte for `le`, the first for `be`) -/
+theorem i_fromBytes_spec {bw sh : Nat} (hbw : bw = 2 ^ sh) {n : Nat} {bytes : List Nat} (hb : Bytes bytes)
+    (hlen : bytes.length = n * bw) :
+    (∃ x, II.fromLeBytes bw n bytes = .ok x ∧ WF (8 * bw) n x ∧ S (8 * bw) x = twosLE bytes) ∧
+    (∃ x, II.fromBeBytes bw n bytes = .ok x ∧ WF (8 * bw) n x ∧ S (8 * bw) x = twosBE bytes) := by
+  obtain ⟨⟨x, _, hx2, hxw, hxu⟩, ⟨y, _, hy2, hyw, hyu⟩⟩ := fromBytes_spec hbw hb hlen
+  refine ⟨⟨x, hx2, hxw, S_of_U_eq_leValue hxw hb hlen hxu⟩, ⟨y, hy2, hyw, ?_⟩⟩
+  rw [twosBE_eq_twosLE_reverse]
+  exact S_of_U_eq_leValue hyw hb.reverse (by simpa using hlen) (by rw [hyu, beValue_eq_leValue_reverse])
+example : II.fromBeBytes 1 2 [0xff, 0xfe] = .ok [0xfe, 0xff] ∧ twosBE [0xff, 0xfe] = -2 := by decide
+
+/-- C15 "exact inverses", signed: `from_X_bytes (to_X_bytes a) = a` for X ∈ {le, be, ne} -/
+theorem i_fromBytes_toBytes {bw sh : Nat} (hbw : bw = 2 ^ sh) {n : Nat} (e : Bool) {a : List Nat}
+    (ha : WF (8 * bw) n a) :
+    (II.toLeBytes bw n a).bind (II.fromLeBytes bw n) = .ok a ∧
+    (II.toBeBytes bw n a).bind (II.fromBeBytes bw n) = .ok a ∧
+    (II.toNeBytes e bw n a).bind (II.fromNeBytes e bw n) = .ok a :=
+  fromBytes_toBytes hbw e ha
+example : (II.toBeBytes 2 2 [0x0001, 0x8000]).bind (II.fromBeBytes 2 2) = .ok [0x0001, 0x8000] := by decide
+
+/-- C15 "exact inverses", signed: `to_X_bytes (from_X_bytes b) = b` for X ∈ {le, be, ne} -/
+theorem i_toBytes_fromBytes {bw sh : Nat} (hbw : bw = 2 ^ sh) {n : Nat} (e : Bool) {bytes : List Nat}
+    (hb : Bytes bytes) (hlen : bytes.length = n * bw) :
+    (II.fromLeBytes bw n bytes).bind (II.toLeBytes bw n) = .ok bytes ∧
+    (II.fromBeBytes bw n bytes).bind (II.toBeBytes bw n) = .ok bytes ∧
+    (II.fromNeBytes e bw n bytes).bind (II.toNeBytes e bw n) = .ok bytes :=
+  toBytes_fromBytes hbw e hb hlen
+example : (II.fromLeBytes 2 2 [0x80, 0xff, 0, 1]).bind (II.toLeBytes 2 2) = .ok [0x80, 0xff, 0, 1] := by decide
 
 end Bnum.C15
